@@ -592,8 +592,11 @@ private:
       return nullptr;
     }
 
+    // The elements are laid out in sandbox memory according to the sandbox's
+    // ABI, so use the size of an element there
     detail::check_range_doesnt_cross_app_sbx_boundary<T_Sbx>(
-      start, count * sizeof(T_CopyAndVerifyRangeEl));
+      start,
+      count * sizeof(tainted_volatile<T_CopyAndVerifyRangeEl, T_Sbx>));
 
     return start;
   }
